@@ -71,3 +71,38 @@ contract(TR + "query_ast_visitor.visit_BinOp", props=["C13", "C09", "C02"],
              ("cxx_static_type_is_declared_kind@C13,C02", "implies(known_binop(node), cxx_agrees(node, kind_of(final_left), kind_of(final_right), kind_of(rep_of(node))))"),
              ("operands_arithmetic@C13", "implies(known_binop(node), arith(kind_of(final_left)) and arith(kind_of(final_right)))"),
          ])
+
+UNOP_NODE = RefOf("ast.UnaryOp")
+contract(TR + "query_ast_visitor.visit_UnaryOp", props=["C13", "C09"],
+         params=dict(self=QV, node=UNOP_NODE), local_sorts=dict(operand=VAL),
+         requires=CVC_REQUIRES + [("operand", "field(node, 'operand') != None and field(node, 'op') != None")],
+         modifies=CVC_MODIFIES, may_raise=["Exception"], strict=False,
+         raises={"RuntimeError": "not (op_is(node, 'UAdd') or op_is(node, 'USub') or op_is(node, 'Not'))"},
+         ensures=CVC_ENSURES + [
+             ("has_rep", "rep_of(node) != None and is_new(rep_of(node))"),
+             ("text@C13", "expr_of(rep_of(node)) == '(' + ('+' if op_is(node, 'UAdd') else '-' if op_is(node, 'USub') else '!') + '(' + expr_of(final_operand) + '))'"),
+             ("kind_of_operand@C13", "type_of(rep_of(node)) == type_of(final_operand)"),
+         ])
+
+CMP_NODE = RefOf("ast.Compare")
+
+
+def cmp_text(o):
+    return ("<" if cls_is(o, "ast.Lt") else "<=" if cls_is(o, "ast.LtE") else ">" if cls_is(o, "ast.Gt") else
+            ">=" if cls_is(o, "ast.GtE") else "==" if cls_is(o, "ast.Eq") else "!=")
+
+
+def known_cmp(o):
+    return (cls_is(o, "ast.Lt") or cls_is(o, "ast.LtE") or cls_is(o, "ast.Gt") or cls_is(o, "ast.GtE") or cls_is(o, "ast.Eq") or cls_is(o, "ast.NotEq"))
+
+
+contract(TR + "query_ast_visitor.visit_Compare", props=["C13", "C09"],
+         params=dict(self=QV, node=CMP_NODE), local_sorts=dict(left=VAL, right=VAL),
+         requires=CVC_REQUIRES + [("parts", "field(node, 'left') != None and len(field(node, 'ops')) == len(field(node, 'comparators')) and "
+                                            "all(c != None for c in field(node, 'comparators')) and all(o != None for o in field(node, 'ops'))")],
+         modifies=CVC_MODIFIES, may_raise=["Exception"], strict=False,
+         raises={"RuntimeError": "len(field(node, 'ops')) != 1"},
+         ensures=CVC_ENSURES + [
+             ("boolean@C13", "plain_value(rep_of(node), '(' + expr_of(final_left) + cmp_text(field(node, 'ops')[0]) + expr_of(final_right) + ')', 'bool')"),
+             ("known_operator@C09", "known_cmp(field(node, 'ops')[0])"),
+         ])
